@@ -134,7 +134,7 @@ def run_case(prop, case, spec, scratch, stats):
             if "C19" in props and op["op"] not in ("reopen", "clear"):
                 tl, ll = sut.store_lengths()
                 stats["C19_per_op_sizes"] += 1
-                et = sut.m.trie_blocks() * 128
+                et = sut.m.trie_blocks(sut.stored_lrus() if sut.m.optional else None) * 128
                 el = (1 + 2 * sum(sut.m.links.values())) * 16
                 if (tl, ll) != (et, el):
                     ds.append({"props": ["C19"], "kind": "store-growth", "at_op": i,
